@@ -123,6 +123,10 @@ def main(tier: str) -> int:
                 if cn.startswith("SelfC") and sid % 3 == 0:
                     cfg["K"] = [0.5, 2, 5][sid % 3]
                 runs.append((cn, cfg))
+    # an objective with a large constant part: group means differ by ~1e-6 relative
+    for cn in ("SelfCGA", "SelfCGP"):
+        sid += 1
+        runs.append((cn, dict(pop_size=12, iters=8 if cn.endswith("GA") else 6, objective="offset6", elitism=False, seed=chk.seed * 100 + sid, keep_history=True)))
     # distinct floors per operator kind, long enough for a losing operator to reach its floor
     for cn in ("SelfCGA", "SelfCGP"):
         sid += 1
@@ -165,7 +169,7 @@ def main(tier: str) -> int:
                 opsidx = [ks.index(str(o)) for o in ob]
                 thr = opt._thresholds[kind]
                 # S4: the documented update rule, recomputed independently
-                fit_exact = all(float(f).is_integer() and abs(f) < 1e6 for f in a["fitness"])
+                fit_exact = all(float(f).is_integer() and abs(f) < 1e9 for f in a["fitness"])
                 exp = None
                 if pdp and a["prev"]:
                     exp = rule_pdp(ks, ob, [bool(x < y) for x, y in zip(a["prev"], a["fitness"])], thr)
@@ -184,7 +188,7 @@ def main(tier: str) -> int:
                     elif pa != pb:
                         chk.fail("PDP probabilities changed although no parent fitness was recorded", {"run": d, "generation": g, "kind": kind}, {"optimizer": cn, "clause": "update"})
                 else:
-                    fit_int = all(float(f).is_integer() and abs(f) < 1e6 for f in a["fitness"])
+                    fit_int = all(float(f).is_integer() and abs(f) < 1e9 for f in a["fitness"])
                     if fit_int:  # group means are then exact in double precision, ties are ties
                         add({"op": "sc_fittest", "n_ops": len(ks), "ops": opsidx, "fit": [C.rat(f) for f in a["fitness"]]},
                             ("fittest:" + cn, {"run": d, "generation": g, "kind": kind, "operators": [str(o) for o in ob], "fitness": a["fitness"]}, None))
